@@ -40,14 +40,14 @@ pub fn parse_whitespace_separated(scope: &str) -> Result<Vec<Scope>, Error> {
             (?P<path>
                 (
                     (
-                        [A-Z][a-zA-Z0-1]*
+                        [A-Z][a-zA-Z0-9]*
                         |
                         \*
                     )
                     (?:
                         \.
                         (
-                            [A-Z][a-zA-Z0-1]*
+                            [A-Z][a-zA-Z0-9]*
                             |
                             \*
                         )
